@@ -75,7 +75,7 @@ def Pat.matches (p : Pat) (e : Edge) : Bool :=
   (p.holders.isEmpty || p.holders.contains e.holder) && (p.locker == "" || p.locker == e.locker) && (p.via == "" || p.via == e.via)
 
 /-- GENUINE lock-order violations of the current tree, each replayed on the real code by `harness -c lock`.
-    Empty since fix ba4338a removed the ClusterContext -> ClusterContext self edge (partitionManager.Stop -> remove ->
+    Empty since fix d47df11 removed the ClusterContext -> ClusterContext self edge (partitionManager.Stop -> remove ->
     cc.removePartition under cc.Lock); a lock-order violation found later and kept as a known finding goes here. -/
 def knownBad : List Pat := []
 
